@@ -369,6 +369,7 @@ def run(ctx, chk, tier="quick"):
     adds = [x for x in ast.walk(loop) if isinstance(x, ast.Call) and isinstance(x.func, ast.Attribute)
             and isinstance(x.func.value, ast.Name) and x.func.value.id == free_set
             and x.func.attr in ("add", "append", "insert", "appendleft", "update", "extend") and x.args]
+    too_strong = []
     for ad in adds:
         target = ast.unparse(ad.args[-1])
         need = "%s[%s]" % (cand_p, target)
@@ -380,12 +381,26 @@ def run(ctx, chk, tier="quick"):
                 # the test must require the list to be non-empty (truthiness / len > 0), not its negation
                 tt = ast.unparse(par.test)
                 guarded = ("not %s" % need) not in tt and ("len(%s) == 0" % need) not in tt
+                # the guard may be nothing stronger than 'has candidates' (plus loop-carried boolean flags)
+                from ..guards import nonempty_nf
+                conj = par.test.values if isinstance(par.test, ast.BoolOp) and isinstance(par.test.op, ast.And) else [par.test]
+                for cj in conj:
+                    if isinstance(cj, ast.Name):
+                        continue
+                    nfc = nonempty_nf(cj)
+                    if nfc is None or ast.unparse(nfc[0]) != need or nfc[1] is not True:
+                        too_strong.append((ad, cj))
             n_ = par
         chk.ob("C02.O3", guarded, where_of(fsm, ad),
                "re-queue `%s`: %s" % (ast.unparse(ad), "only when %s is non-empty" % need if guarded else "not conditional on %s being non-empty" % need),
                "a storm goes back to the free set only if it still has candidates (the loop takes one from every storm it pops)",
                key="find_stable_matching|requeue-has-candidates|%s" % target,
                why="a displaced storm whose candidate list is exhausted is popped again and the loop's own `assert storm_candidates[storm]` fails: classification aborts")
+    for ad, cj in too_strong:
+        chk.ob("C02.O3", False, where_of(fsm, ad), "re-queue `%s` additionally requires `%s`" % (ast.unparse(ad), ast.unparse(cj)),
+               "a storm with remaining candidates always goes back to the free set",
+               key="find_stable_matching|requeue-too-strong|%s" % ast.unparse(ad.args[-1]),
+               why="a displaced storm must keep proposing, also to rises that are currently held: it may outrank the holder; dropping it leaves a blocking pair")
     # the re-queue calls resolve on the container type (shared with C01.O1)
     bad = [(c, v, t, m) for c, v, t, m, ex in apires.container_method_sites(fsm) if v == free_set and not ex]
     chk.ob("C02.O3", not bad, where_of(fsm, bad[0][0] if bad else loop),
